@@ -31,5 +31,5 @@ def report(model: Model, rr: RuleResult, members: List[Tuple[str, str]], why: st
         for c in it.checked:
             rr.ok(f"{m[0]}.{m[1]}: {c}")
         for e in it.errors:
-            rr.bad(it.fi, e.node, f"coordinate-space error: {e.message}. {why}", construct=f"{short(e.node, 110)} :: {e.message}")
+            rr.bad_shape(it.fi, e.node, f"coordinate-space error: {e.message}. {why}", construct=f"{short(e.node, 110)} :: {e.message}")
         rr.remarks.append(f"{m[0]}.{m[1]}: {it.paths} path(s), {len(it.checked)} checked, {it.unchecked} involving unknown (T?) operands")
